@@ -296,6 +296,8 @@ def runtime(ck, tier, deep):
             return x
         ea, ek = copy.deepcopy(args0), copy.deepcopy(kw0)
         try:
+            for m_ in ("basex", "dasch", "daun", "linbasex", "rbasex"):        # (so that whatever is remembered is remembered from *these* objects)
+                getattr(__import__("abel"), m_).cache_cleanup()
             call(f, ea, ek)
             map_arrays(ea, edit), map_arrays(ek, edit)
             r_edit = canon(call(f, ea, ek))
